@@ -36,7 +36,12 @@ def gen_tree(rng, depth, maxdepth, ids, pool, width):
         plot = None
         if rng.random() < 0.4:
             plot = rng.randrange(1, 6) if rng.random() < 0.5 else 100 + ids[0]
-        items.append({'res': [ids[0], plot]})
+        if plot is None and rng.random() < 0.15:
+            # a result with nothing to show at this verbosity (no table, no figure): its anchor and description are
+            # still on the page
+            items.append({'res': [ids[0], None, 'empty']})
+        else:
+            items.append({'res': [ids[0], plot]})
     if depth < maxdepth:
         for _ in range(rng.randrange(0, width + 1)):
             sub = gen_tree(rng, depth + 1, maxdepth, ids, pool, width)
@@ -127,6 +132,8 @@ def stubs():
         verbosity = Verbosity.DEFAULT
 
         def __call__(self, result):
+            if getattr(result, 'empty', False):
+                return []
             out = [TableTemplate(np.array([1.0]), np.array([2.0]), headers=['v', 'w'])]
             if result.plot is not None:
                 curve = CurveElements(np.array([float(result.plot)]), bins=[np.array([0., 1.])], legend='c')
@@ -157,10 +164,12 @@ def build(tree, maps):
         if 'sec' in it:
             content.append(build(it['sec'], maps))
         else:
-            rid, plot = it['res']
+            rid, plot = it['res'][:2]
             test = stb['StubTest'](name=f'test{rid}', description=f'result number {rid}')
             maps['anchor'][fingerprint(test)] = rid
-            content.append(stb['StubResult'](test, plot))
+            res = stb['StubResult'](test, plot)
+            res.empty = len(it['res']) > 2
+            content.append(res)
     return TestReport(title=tree['title'], text='some text', content=content)
 
 
